@@ -16,7 +16,7 @@ extracted (all numbers as exact fractions):
   variants the variants section decoded from the bytes (announced count, entries present)
   calls    for each generated call: the [name, value] pairs of the /s_new message
 """
-import io, json, os, struct, sys, logging
+import copy, io, json, math, os, struct, sys, logging, threading
 from fractions import Fraction
 
 import sc3
@@ -42,10 +42,48 @@ def fr(x):
 
 
 def num(s, as_int=False):
+    """[fraction, kind]: kind True = int, False = float, 'b' = bool, 'nz' = float -0.0"""
     f = Fraction(s)
+    if as_int == 'b':
+        return bool(f)
+    if as_int == 'nz':
+        return -0.0
     if as_int and f.denominator == 1:
         return int(f)
     return float(f)
+
+
+def tag(x):
+    """type tag of a value as the library holds it (exact comparison, class "falsy zero")"""
+    if isinstance(x, bool):
+        return 'b'
+    if isinstance(x, int):
+        return 'i'
+    if isinstance(x, float):
+        return 'f-' if (x == 0 and math.copysign(1.0, x) < 0) else 'f'
+    if x is None:
+        return 'none'
+    return type(x).__name__
+
+
+def dec_any(v):
+    """prepended values: tagged json -> python object"""
+    k = v[0]
+    if k == 'n':
+        return num(v[1], v[2])
+    return {'none': None, 'str': '', 'tuple': (), 'list': [], 'str1': 'ab', 'tuple2': (1, 2)}[k]
+
+
+def enc_any(x):
+    if isinstance(x, (bool, int, float)):
+        return ['n', fr(x), tag(x)]
+    if x is None:
+        return ['none']
+    if isinstance(x, ugn.OutputProxy):
+        return ['proxy']
+    return [{'': 'str', 'ab': 'str1'}.get(x, 'str?')] if isinstance(x, str) else \
+           [{(): 'tuple', (1, 2): 'tuple2'}.get(x, 'tuple?')] if isinstance(x, tuple) else \
+           ['list' if x == [] else 'list?'] if isinstance(x, list) else [type(x).__name__]
 
 
 def lit(d):
@@ -68,9 +106,12 @@ class Recorder:
     def __init__(self):
         self.funcs = []          # per function: list of [name, value]
         self.children = []       # snapshots of _children at body entry / exit
+        self.pre = []            # per function: what the prepended parameters received
+        self.caught = []         # exceptions of failing wraps the body caught
 
-    def enter(self, names, loc):
+    def enter(self, names, loc, pre=()):
         self.funcs.append([(n, loc[n]) for n in names])
+        self.pre.append([enc_any(loc[n]) for n in pre])
         self.snap()
 
     def snap(self):
@@ -100,15 +141,33 @@ def make_source(tree, path, out):
         if p['default'][0] != 'none' and p['kind'] in ('pok', 'kwonly'):
             s += ' = ' + lit(p['default'])
         parts.append(s)
-    ctl = [p['name'] for p in tree['params'][tree['prepend']:]]
-    body = ['    _R.enter(%r, locals())' % (ctl,), '    _x = DC.ar(0.0)']
+    ctl = [p['name'] for p in tree['params'][tree['prepend']:] if p['kind'] in ('pok', 'kwonly')]
+    pre = [p['name'] for p in tree['params'][:tree['prepend']] if p['kind'] in ('pok', 'kwonly')]
+    body = ['    _R.enter(%r, locals(), %r)' % (ctl, pre), '    _x = DC.ar(0.0)']
     for i, w in enumerate(tree['wraps']):
-        body.append('    SynthDef.wrap(%s, rates=%s, prepend=%s)' % (kids[i], 'RATES[%r]' % ('_'.join(map(str, path + [i])),),
-                                                                     'PREP[%r]' % ('_'.join(map(str, path + [i])),)))
+        key = '_'.join(map(str, path + [i]))
+        call = 'SynthDef.wrap(%s, rates=RATES[%r], prepend=PREP[%r])' % (kids[i], key, key)
+        if w.get('fail') in ('caught_sig', 'caught_body'):
+            # the body survives a failing wrap and goes on building
+            body.append('    try:\n        %s\n        _R.caught.append(None)\n    except (ValueError, TypeError, C04Body) as e:\n        _R.caught.append(type(e).__name__)' % call)
+        else:
+            body.append('    ' + call)
     body.append('    Out.ar(0, _x)')
     body.append('    _R.snap()')
+    if tree.get('fail') == 'caught_body' or tree.get('raise_body') == 'exc':
+        body.append("    raise C04Body('c04 body')")
+    elif tree.get('raise_body') == 'base':
+        body.append("    raise C04Base('c04 base')")
     out.append('def %s(%s):\n%s\n' % (name, ', '.join(parts), '\n'.join(body)))
     return name
+
+
+class C04Body(RuntimeError):
+    pass
+
+
+class C04Base(BaseException):
+    pass
 
 
 def rates_value(tree):
@@ -128,7 +187,13 @@ def rates_value(tree):
 def collect(tree, path, rates, prep):
     key = '_'.join(map(str, path))
     rates[key] = rates_value(tree)
-    prep[key] = [1000.0 + i for i in range(tree['prepend'])] or None
+    pv = tree.get('prepend_vals')
+    if pv is None:
+        prep[key] = [1000.0 + i for i in range(tree['prepend'])] or None
+    elif pv[0] == 'scalar':
+        prep[key] = dec_any(pv[1])
+    else:
+        prep[key] = [dec_any(v) for v in pv[1]]
     for i, w in enumerate(tree['wraps']):
         collect(w, path + [i], rates, prep)
 
@@ -147,6 +212,10 @@ def err_code(e):
         return 5
     if isinstance(e, AttributeError) and "'NoneType' object has no attribute 'name'" in s:
         return 6
+    if isinstance(e, C04Body):
+        return 7
+    if isinstance(e, C04Base):
+        return 8
     return 99
 
 
@@ -180,6 +249,7 @@ def parse_variants(data, ncontrols_expected):
     for _ in range(i32()): f32()
     nc = i32()
     ctl = [f32() for _ in range(nc)]
+    negz = lambda xs: [i for i, x in enumerate(xs) if x == 0 and math.copysign(1.0, x) < 0]
     names = []
     for _ in range(i32()):
         n = pstr(); names.append([n, i32()])
@@ -188,14 +258,17 @@ def parse_variants(data, ncontrols_expected):
         take(8 * nin); take(nout)
     count = i16()
     present = []
+    present_nz = []
     try:
         for _ in range(count):
             vn = pstr()
-            present.append([vn, [fr(f32()) for _ in range(nc)]])
+            vals = [f32() for _ in range(nc)]
+            present.append([vn, [fr(x) for x in vals]])
+            present_nz.append(negz(vals))
     except EOFError:
         pass
     return {'count': count, 'written': present, 'raised': False, 'trailing': len(b) - pos,
-            'table': names, 'controls': [fr(x) for x in ctl]}
+            'table': names, 'controls': [fr(x) for x in ctl], 'controls_negzero': negz(ctl), 'written_negzero': present_nz}
 
 
 SENT = []
@@ -209,6 +282,21 @@ def install_capture():
     addr_t.send_msg = cap
 
 
+def context_state():
+    """what the NEXT operation would see: build context released?"""
+    st = {'ctx_clear': _libsc3.main._current_synthdef is None}
+    got = []
+    t = threading.Thread(target=lambda: got.append(_libsc3.main._def_build_lock.acquire(timeout=0.5)
+                                                   and (_libsc3.main._def_build_lock.release() or True)))
+    t.start(); t.join()
+    st['lock_free'] = bool(got and got[0])
+    if not st['ctx_clear']:
+        u = DC.ar(0.0)          # a unit created outside any build must not belong to a definition
+        st['stale_attach'] = getattr(u, '_synthdef', None) is not None
+        _libsc3.main._current_synthdef = None
+    return st
+
+
 def run_case(idx, case):
     res = {'err': 0}
     src = []
@@ -216,7 +304,8 @@ def run_case(idx, case):
     rates, prep = {}, {}
     collect(case['tree'], [], rates, prep)
     rec = Recorder()
-    scope = {'SynthDef': SynthDef, 'DC': DC, 'Out': Out, '_R': rec, 'RATES': rates, 'PREP': prep}
+    scope = {'SynthDef': SynthDef, 'DC': DC, 'Out': Out, '_R': rec, 'RATES': rates, 'PREP': prep,
+             'C04Body': C04Body, 'C04Base': C04Base}
     exec('\n'.join(src), scope)
     func = scope[top]
     md = None
@@ -228,15 +317,27 @@ def run_case(idx, case):
         for vn, pairs in case['variants']:
             variants[vn] = {cn: (num(vals[1], vals[2]) if vals[0] == 's' else [num(x, i) for x, i in vals[1]])
                             for cn, vals in pairs}
-    rates_before = json.dumps(rates[''])
+    if case.get('empty_dicts'):
+        # explicit empty containers instead of None (falsy, but not None)
+        md = {} if md is None else md
+        variants = {} if variants is None else variants
+
+    def snapshot():
+        return repr((rates, prep, variants, None if md is None else sorted((k, v.default) for k, v in md.get('specs', {}).items())))
+    before = snapshot()
+    res['before'] = before
     try:
         sd = SynthDef(case['name'], func, rates=rates[''], prepend=prep[''], variants=variants, metadata=md)
-    except Exception as e:
+    except BaseException as e:
         res['err'] = err_code(e)
         res['errtext'] = '%s: %s' % (type(e).__name__, e)
-        res['current_synthdef_cleared'] = _libsc3.main._current_synthdef is None
+        res.update(context_state())
+        res['args_mutated'] = snapshot() != before
         return res
-    res['rates_mutated'] = json.dumps(rates['']) != rates_before
+    res.update(context_state())
+    res['pre'] = rec.pre
+    res['caught'] = rec.caught
+    res['controls_tags'] = [tag(x) for x in sd._controls]
     res['all'] = [[cn.name, cn.index, RATE.get(cn.rate, cn.rate),
                    [fr(x) for x in (cn.default_value if isinstance(cn.default_value, list) else [cn.default_value])],
                    not isinstance(cn.default_value, list), lagrepr(cn.lag), cn.arg_num]
@@ -286,6 +387,9 @@ def run_case(idx, case):
             res['calls'].append([[a[i], fr(a[i + 1])] for i in range(0, len(a), 2)])
         except Exception as e:
             res['calls'].append({'error': '%s: %s' % (type(e).__name__, e)})
+    res['args_mutated'] = snapshot() != before
+    if res['args_mutated']:
+        res['after'] = snapshot()
     # as_bytes() keeps a memoryview exported from a BytesIO; release it explicitly, otherwise the
     # cyclic collector may free the BytesIO first ("deallocated BytesIO object has exported buffers")
     try:
